@@ -43,6 +43,18 @@ impl RustDocument {
         me
     }
 
+    /// Start the document of an imported file: it shares the namespaces (and so their
+    /// abbreviations and modules) and the components its importer has collected so far; the
+    /// prefix table is its own.
+    pub fn init_imported(doc: &Document, importer: &RustDocument) -> Self {
+        let mut me = Self::empty();
+        me.namespaces.clone_from(&importer.namespaces);
+        me.target_namespaces.clone_from(&importer.target_namespaces);
+        me.nodes.clone_from(&importer.nodes);
+        collect_namespaces_on_node(doc.root_element(), &mut me);
+        me
+    }
+
     pub fn extend(&mut self, other: RustDocument) {
         // the prefix table (`namespace_lookup`) is per document and is deliberately not merged:
         // the prefixes of an imported file must neither rebind the prefixes of the importing
@@ -51,7 +63,12 @@ impl RustDocument {
         extend_no_duplicates(&mut self.namespaces, other.namespaces);
         extend_no_duplicates(&mut self.target_namespaces, other.target_namespaces);
 
-        self.nodes.extend(other.nodes);
+        // an imported document starts with the nodes of its importer: only add the new ones
+        for node in other.nodes {
+            if !self.nodes.iter().any(|n| Rc::ptr_eq(n, &node)) {
+                self.nodes.push(node);
+            }
+        }
         self.soap_messages.extend(other.soap_messages);
         self.soap_ports.extend(other.soap_ports);
         self.soap_bindings.extend(other.soap_bindings);
@@ -124,7 +141,10 @@ impl RustDocument {
 
     pub fn switch_to_target_namespace(&mut self, namespace: &str) {
         // check if the namespace is already in the list
-        if !self.target_namespaces.iter().any(|ns| ns.namespace == namespace) {
+        if let Some(known) = self.target_namespaces.iter().find(|ns| ns.namespace == namespace) {
+            // another file of the same target namespace (or the importer) registered it already
+            self.current_target_namespace = Some(known.clone());
+        } else {
             // Check if we already have a reference to this namespace. If so, use that one, otherwise create a new one.
             let tns = self
                 .namespaces
@@ -132,7 +152,7 @@ impl RustDocument {
                 .find(|ns| ns.namespace == namespace)
                 .cloned()
                 .unwrap_or_else(|| {
-                    let abbreviation = make_abbreviated_namespace(namespace, &self.target_namespaces);
+                    let abbreviation = make_abbreviated_namespace(namespace, &self.namespaces);
                     let rust_mod_name = create_mod_name_for_namespace(&abbreviation);
 
                     Rc::new(Namespace {
